@@ -12,18 +12,17 @@ open Kanzi.Bits Kanzi.TrSmall Kanzi.Block
 
 /-! ### size of a payload -/
 
-theorem encodeWith_shape (copy : Bool) (trs : List Tr) (ent : Ent) (ckw sum : Nat) (b : List Nat) (p : Bits)
-    (h : encodeWith copy trs ent ckw sum b = .ok p) :
-    ∃ e, ent.enc (seqForward (fwdStages trs b.length) b).1 = some e ∧
-      8 ≤ p.length ∧ p.length ≤ 48 + ckw + e.length := by
-  unfold encodeWith at h
+theorem encodeOf_shape (copy : Bool) (n : Nat) (ent : Ent) (ckw sum : Nat) (f : List Nat × Nat) (p : Bits)
+    (h : encodeOf copy n ent ckw sum f = .ok p) :
+    ∃ e, ent.enc f.1 = some e ∧ 8 ≤ p.length ∧ p.length ≤ 48 + ckw + e.length := by
+  unfold encodeOf at h
   simp only at h
   split at h
   · cases h
   · split at h
     · cases h
     · rename_i h4
-      cases he : ent.enc (seqForward (fwdStages trs b.length) b).1 with
+      cases he : ent.enc f.1 with
       | none => rw [he] at h; cases h
       | some e =>
         rw [he] at h
@@ -32,10 +31,15 @@ theorem encodeWith_shape (copy : Bool) (trs : List Tr) (ent : Ent) (ckw sum : Na
         refine ⟨e, rfl, ?_, ?_⟩
         · simp only [List.length_append, natBits_length]; omega
         · have hx := extraBits_length (encodeMode ((if copy = true then 0x80 else 0) |||
-            (((dataSizeGen (seqForward (fwdStages trs b.length) b).1.length - 1) &&& 3) <<< 5))
-            (seqForward (fwdStages trs b.length) b).2 trs.length).2
+            (((dataSizeGen f.1.length - 1) &&& 3) <<< 5)) f.2 n).2
           simp only [List.length_append, natBits_length]
           omega
+
+theorem encodeWith_shape (copy : Bool) (trs : List Tr) (ent : Ent) (ckw sum : Nat) (lim : Option Nat)
+    (b : List Nat) (p : Bits) (h : encodeWith copy trs ent ckw sum lim b = .ok p) :
+    ∃ e, ent.enc (fallback lim (seqMaxLen trs b.length) b (seqForward (fwdStages trs b.length) b)).1 = some e ∧
+      8 ≤ p.length ∧ p.length ≤ 48 + ckw + e.length :=
+  encodeOf_shape copy trs.length ent ckw sum _ p h
 
 /-- a payload that fits the reader's frame bound -/
 def FrameFit (B : Nat) (p : Bits) : Prop := 0 < p.length ∧ p.length < 2 ^ 34 ∧ p.length ≤ maxFrameBits B
@@ -65,8 +69,10 @@ theorem small_none_fit (c : Cfg) (B : Nat) (b : List Nat) (p : Bits)
   have hck := ckWidth_le c.ck
   by_cases hc : isCopy c b = true
   · rw [if_pos hc] at h
-    obtain ⟨e, he, h8, hle⟩ := encodeWith_shape _ _ _ _ _ _ _ h
-    rw [seqForward_null b hb0] at he
+    obtain ⟨e, he, h8, hle⟩ := encodeWith_shape _ _ _ _ _ _ _ _ h
+    have hfb : (fallback c.bs (seqMaxLen [nullTr] b.length) b (seqForward (fwdStages [nullTr] b.length) b)).1 = b := by
+      rcases fallback_null c.bs (seqMaxLen [nullTr] b.length) b hb0 with h' | h' <;> rw [h']
+    rw [hfb] at he
     have : e = ofBytes b := by
       have h2 : noneEnt.enc b = some (ofBytes b) := by
         show some (EntSmall.nullEncode b) = _
@@ -76,7 +82,7 @@ theorem small_none_fit (c : Cfg) (B : Nat) (b : List Nat) (p : Bits)
     rw [ofBytes_length] at hle
     exact frameFit_of_le B b.length p h8 hB hmax (by omega)
   · rw [if_neg hc] at h
-    obtain ⟨e, he, h8, hle⟩ := encodeWith_shape _ _ _ _ _ _ _ h
+    obtain ⟨e, he, h8, hle⟩ := encodeWith_shape _ _ _ _ _ _ _ _ h
     have hne : b ≠ [] := fun h => by rw [h] at hb0; exact Nat.lt_irrefl 0 hb0
     have hseq := seqLaw_small c.trs hn hs b.length (taskBlockLength B) (by omega)
       (Nat.le_trans hB (taskBlockLength_ge B))
@@ -91,15 +97,17 @@ theorem small_none_fit (c : Cfg) (B : Nat) (b : List Nat) (p : Bits)
     obtain ⟨hDt, _⟩ := seqForward_inD (IsBlock b.length) _ b hS ⟨hbytes, Nat.le_refl _⟩ hne
     rw [← hfS] at hDt
     rw [hent] at he
-    have : e = ofBytes (seqForward (fwdStages c.trs b.length) b).1 := by
-      have h2 : noneEnt.enc (seqForward (fwdStages c.trs b.length) b).1 =
-          some (ofBytes (seqForward (fwdStages c.trs b.length) b).1) := by
+    have hlen : (fallback c.bs (seqMaxLen c.trs b.length) b (seqForward (fwdStages c.trs b.length) b)).1.length ≤ b.length := by
+      rcases fallback_cases c.bs (seqMaxLen c.trs b.length) b (seqForward (fwdStages c.trs b.length) b) with h' | h' <;> rw [h']
+      exact hDt.2
+    have : e = ofBytes (fallback c.bs (seqMaxLen c.trs b.length) b (seqForward (fwdStages c.trs b.length) b)).1 := by
+      have h2 : noneEnt.enc (fallback c.bs (seqMaxLen c.trs b.length) b (seqForward (fwdStages c.trs b.length) b)).1 =
+          some (ofBytes (fallback c.bs (seqMaxLen c.trs b.length) b (seqForward (fwdStages c.trs b.length) b)).1) := by
         show some (EntSmall.nullEncode _) = _
         rw [EntSmall.nullEncode_eq]
       rw [h2] at he; injection he with he; exact he.symm
     subst this
     rw [ofBytes_length] at hle
-    have := hDt.2
     exact frameFit_of_le B b.length p h8 hB hmax (by omega)
 
 /-! ### the blocks of a stream -/
@@ -299,7 +307,7 @@ theorem end_to_end (h : Header.Header) (wf : Header.WF h) (ce cd : Cfg)
 /-! ### NONE / NONE: the generic image is the image of `Kanzi/Model/Block.lean` -/
 
 theorem encodeBlocks_none (ck : Nat) (blocks : List (List Nat))
-    (hv : ∀ b ∈ blocks, 0 < b.length ∧ b.length < 2 ^ 32) :
+    (hv : ∀ b ∈ blocks, 0 < b.length ∧ b.length ≤ 2 ^ 30) :
     encodeBlocks (noneCfg ck) blocks = .ok (blocks.map (encodeNone ck)) := by
   induction blocks with
   | nil => rfl
@@ -309,7 +317,7 @@ theorem encodeBlocks_none (ck : Nat) (blocks : List (List Nat))
     rfl
 
 theorem streamImageGen_none (h : Header.Header) (ck : Nat) (blocks : List (List Nat))
-    (hv : ∀ b ∈ blocks, 0 < b.length ∧ b.length < 2 ^ 32) :
+    (hv : ∀ b ∈ blocks, 0 < b.length ∧ b.length ≤ 2 ^ 30) :
     streamImageGen h (noneCfg ck) blocks = .ok (streamImage h ck blocks) := by
   unfold streamImageGen
   rw [encodeBlocks_none ck blocks hv]
